@@ -272,6 +272,47 @@ fn gen_c08(r: &mut Rng, _t: Tier, _job: u64) -> Plan {
             cols: vec![],
         }),
     }];
+    // sometimes the id was handed out before with another parameter count (a caching shim
+    // re-using ids without a close in between): the execution must see the new declaration
+    if r.chance(1, 6) {
+        let old_np = *r.pick(&[0usize, 1, 2, 3, 8, 9]);
+        if old_np != np {
+            let prev = Cmd {
+                seq: 0,
+                kind: CmdKind::Prepare(query_text(r)),
+                act: Act::Prepare(PrepAct::Reply {
+                    id,
+                    params: (0..old_np)
+                        .map(|_| ColSpec {
+                            table: Blob::lit(b""),
+                            name: Blob::lit(b"?"),
+                            coltype: 0xfd,
+                            flags: 0,
+                        })
+                        .collect(),
+                    cols: vec![],
+                }),
+            };
+            cmds.insert(0, prev);
+            if old_np > 0 && r.coin() {
+                let mut t = None;
+                let block = gen_exec_block(r, old_np, &mut t, false, 100);
+                cmds.insert(
+                    1,
+                    Cmd {
+                        seq: 0,
+                        kind: CmdKind::Execute {
+                            stmt: id,
+                            flags: 0,
+                            iters: 1,
+                            block,
+                        },
+                        act: Act::Program(simple_ok_program()),
+                    },
+                );
+            }
+        }
+    }
     let nexec = 1 + r.usize_below(3);
     let mut types = None;
     let big = np <= 5 && r.chance(1, 8);
